@@ -196,10 +196,15 @@ void Terminal::Impl::executeExitCmd(SessionContext *s, const Args &)
     if (!(s->options & kQuietMode))
         s->wp_conn->send(s->token, "Bye!\r\n");
 
+    auto st = s->token;
     wp_loop_->runNext(
-        [this, s] {
-            s->wp_conn->endSession(s->token);
-            deleteSession(s->token);
+        [this, st] {
+            //! 同一批输入中可能有多个 exit，或对端已先断开，此时会话已不存在
+            auto s = sessions_.at(st);
+            if (s == nullptr)
+                return;
+            s->wp_conn->endSession(st);
+            deleteSession(st);
         },
         __func__
     );
